@@ -299,6 +299,7 @@ func run(t *rapid.T, r *rec.Recorder) {
 		"ack":             wrap(bm.ActAck),
 		"limit":           wrap(bm.ActLimit),
 		"tssInject":       wrap(m.tssInject),
+		"toggleRoundTrip": wrap(bm.ActToggleRoundTrip),
 		"":                wrap(m.check),
 	}
 	t.Repeat(acts)
